@@ -17,6 +17,11 @@ mod c07;
 #[cfg(feature = "shuttle")]
 mod c07shuttle;
 mod c11;
+#[cfg(feature = "alloc_world")]
+mod c18;
+#[cfg(feature = "alloc_world")]
+#[global_allocator]
+static SIM_ALLOC: c18::SimAlloc = c18::SimAlloc;
 mod model;
 mod tables;
 mod workload;
@@ -81,6 +86,11 @@ macro_rules! scenarios {
                 let $s = c07::C07Cpu;
                 $body
             }
+            #[cfg(feature = "alloc_world")]
+            "c18" => {
+                let $s = c18::C18;
+                $body
+            }
             "c11" => {
                 let $s = c11::C11;
                 $body
@@ -120,6 +130,10 @@ fn main() {
         harness_error("usage: sim batch <scenario> ... | sim replay <file>");
     }
     framework::install_quiet_panic_hook();
+    #[cfg(feature = "alloc_world")]
+    if args.iter().any(|a| a == "--alloc-hard-fail") {
+        c18::HARD_FAIL.store(true, std::sync::atomic::Ordering::Relaxed);
+    }
     let code = match args[1].as_str() {
         "batch" => {
             let name = args.get(2).cloned().unwrap_or_default();
